@@ -1556,3 +1556,265 @@ func TestVerifC13EndpointFine(t *testing.T) {
 		return r
 	})
 }
+
+// ---------------------------------------------------------------------------------------------
+// part 5: udpConnStateTracker with concurrent owners.  Each owner is a goroutine that retains its tuple
+// (and may block in cond.Wait while the entry is being deleted), then keeps, releases (BeginRelease /
+// kernel delete / FinalizeRelease as separately released steps, the body of
+// controlPlaneCore.ReleaseUdpConnStateTuples) or forgets it.
+// ---------------------------------------------------------------------------------------------
+
+type c13TFThread struct {
+	K    int `json:"k"`
+	Mode int `json:"mode"` // 0 keep, 1 release, 2 forget
+}
+
+type c13TFCase struct {
+	Keys    int           `json:"keys"`
+	Threads []c13TFThread `json:"threads"`
+	Cmds    []int         `json:"cmds"`
+}
+
+type c13TFStep struct {
+	Cmd     int     `json:"cmd"`
+	Thr     []int   `json:"thr"`     // 0 unstarted 1 blocked in retain 2 owner 3 begun (kernel delete pending) 4 deleted (finalize pending) 5 done 6 blocked in forget
+	Entries [][]int `json:"entries"` // per key: refs, deleting (-1,-1 when absent)
+	Deletes []int   `json:"deletes"` // kernel deletes issued by this command (tuple)
+}
+
+type c13TFRes struct {
+	Steps         []c13TFStep `json:"steps"`
+	Stuck         string      `json:"stuck,omitempty"`
+	StuckDump     string      `json:"stuck_dump,omitempty"`
+	StuckRunnable bool        `json:"stuck_runnable,omitempty"`
+}
+
+func c13RunTFCase(c c13TFCase) (res c13TFRes) {
+	tr := newUdpConnStateTracker()
+	n := len(c.Threads)
+	var mu sync.Mutex
+	state := make([]int, n)    // as reported
+	waiting := make([]bool, n) // parked on its step channel
+	inCall := make([]int, n)   // 0 none, 1 inside Retain, 2 inside Forget
+	exited := make([]bool, n)
+	gids := make([]int64, n)
+	stepCh := make([]chan struct{}, n)
+	var deletes []int
+	wake := make(chan struct{}, 1)
+	abort := false
+	for i := range stepCh {
+		stepCh[i] = make(chan struct{})
+	}
+	park := func(i int) {
+		mu.Lock()
+		if abort {
+			mu.Unlock()
+			return
+		}
+		waiting[i] = true
+		mu.Unlock()
+		c13Signal(wake)
+		<-stepCh[i]
+		mu.Lock()
+		waiting[i] = false
+		mu.Unlock()
+	}
+	set := func(i, st int) {
+		mu.Lock()
+		state[i] = st
+		mu.Unlock()
+	}
+	for i := range c.Threads {
+		go func() {
+			t := c.Threads[i]
+			keys := []bpfTuplesKey{c13TupleKey(t.K)}
+			mu.Lock()
+			gids[i] = c13Goid()
+			mu.Unlock()
+			defer func() {
+				mu.Lock()
+				exited[i] = true
+				mu.Unlock()
+				c13Signal(wake)
+			}()
+			park(i)
+			mu.Lock()
+			inCall[i] = 1
+			mu.Unlock()
+			tr.Retain(keys)
+			mu.Lock()
+			inCall[i] = 0
+			state[i] = 2
+			mu.Unlock()
+			if t.Mode == 0 {
+				return
+			}
+			park(i)
+			if t.Mode == 1 {
+				rel := tr.BeginRelease(keys)
+				if len(rel) > 0 {
+					set(i, 3)
+					park(i)
+					mu.Lock()
+					for _, r := range rel {
+						_ = r
+						deletes = append(deletes, t.K)
+					}
+					state[i] = 4
+					mu.Unlock()
+					park(i)
+				}
+				tr.FinalizeRelease(rel)
+				set(i, 5)
+				return
+			}
+			mu.Lock()
+			inCall[i] = 2
+			mu.Unlock()
+			tr.Forget(keys)
+			mu.Lock()
+			inCall[i] = 0
+			state[i] = 5
+			mu.Unlock()
+		}()
+	}
+	defer func() {
+		mu.Lock()
+		abort = true
+		mu.Unlock()
+		for i := range stepCh {
+			close(stepCh[i])
+		}
+	}()
+	settle := func() string {
+		deadline := c13SettleDeadline()
+		for round := 0; ; round++ {
+			c13Pause(wake, round)
+			st := c13Statuses()
+			mu.Lock()
+			stable := true
+			for i := range c.Threads {
+				if waiting[i] || exited[i] {
+					continue
+				}
+				status, alive := st[gids[i]]
+				if gids[i] == 0 || !alive || !(inCall[i] != 0 && strings.HasPrefix(status, "sync.Cond.Wait")) {
+					stable = false
+				}
+			}
+			mu.Unlock()
+			if stable {
+				return ""
+			}
+			if time.Now().After(deadline) {
+				return "settle timeout"
+			}
+		}
+	}
+	observe := func(cmd int) c13TFStep {
+		mu.Lock()
+		defer mu.Unlock()
+		st := c13TFStep{Cmd: cmd, Deletes: deletes, Entries: [][]int{}}
+		if st.Deletes == nil {
+			st.Deletes = []int{}
+		}
+		deletes = nil
+		for i := range c.Threads {
+			v := state[i]
+			if !waiting[i] && !exited[i] && inCall[i] == 1 {
+				v = 1
+			}
+			if !waiting[i] && !exited[i] && inCall[i] == 2 {
+				v = 6
+			}
+			st.Thr = append(st.Thr, v)
+		}
+		tr.mu.Lock()
+		for k := 0; k < c.Keys; k++ {
+			if e, ok := tr.entries[c13TupleKey(k)]; ok {
+				d := 0
+				if e.deleting {
+					d = 1
+				}
+				st.Entries = append(st.Entries, []int{e.refs, d})
+			} else {
+				st.Entries = append(st.Entries, []int{-1, -1})
+			}
+		}
+		tr.mu.Unlock()
+		return st
+	}
+	stuckInfo := func() {
+		g := map[int64]bool{}
+		mu.Lock()
+		for i := range gids {
+			if !exited[i] {
+				g[gids[i]] = true
+			}
+		}
+		mu.Unlock()
+		res.StuckDump, res.StuckRunnable = c13StuckDump(g)
+	}
+	if stuck := settle(); stuck != "" { // all threads parked at their start
+		res.Stuck = stuck
+		stuckInfo()
+		return res
+	}
+	exec := func(i int) bool {
+		if i >= 0 && i < n {
+			mu.Lock()
+			w := waiting[i]
+			mu.Unlock()
+			if w {
+				stepCh[i] <- struct{}{}
+			}
+		}
+		if stuck := settle(); stuck != "" {
+			res.Stuck = stuck
+			stuckInfo()
+			return false
+		}
+		res.Steps = append(res.Steps, observe(i))
+		return true
+	}
+	for _, i := range c.Cmds {
+		if !exec(i) {
+			return res
+		}
+	}
+	for round := 0; round < 6*n+6; round++ {
+		next := -1
+		mu.Lock()
+		for i := range c.Threads {
+			if waiting[i] {
+				next = i
+				break
+			}
+		}
+		mu.Unlock()
+		if next < 0 {
+			break
+		}
+		if !exec(next) {
+			return res
+		}
+	}
+	return res
+}
+
+func TestVerifC13TrackerFine(t *testing.T) {
+	verifEachLine(t, func(line []byte) any {
+		var c c13TFCase
+		if err := json.Unmarshal(line, &c); err != nil {
+			return map[string]string{"panic": "bad case: " + err.Error()}
+		}
+		if c13StuckCount >= 5 {
+			return map[string]any{"skipped": true}
+		}
+		r := c13RunTFCase(c)
+		if r.Stuck != "" {
+			c13StuckCount++
+		}
+		return r
+	})
+}
